@@ -877,7 +877,11 @@ func (ts *TestScript) condition(cond string) (bool, error) {
 		return cond == runtime.GOARCH, nil
 	case strings.HasPrefix(cond, "exec:"):
 		prog := cond[len("exec:"):]
-		ok := execCache.Do(prog, func() any {
+		// The lookup depends on the script's own search path, so the path
+		// is part of the cache key: a script that changes PATH must neither
+		// see nor influence the result cached for other scripts.
+		type key struct{ prog, path, path9, pathext string }
+		ok := execCache.Do(key{prog, ts.Getenv("PATH"), ts.Getenv("path"), ts.Getenv("PATHEXT")}, func() any {
 			_, err := execpath.Look(prog, ts.Getenv)
 			return err == nil
 		}).(bool)
